@@ -93,6 +93,7 @@ func (w *World) checkRowsAt(begin, end int) {
 		}
 		w.known[h.key] = h
 		w.held[l.idx] = h
+		w.accepted[l.idx] = append(w.accepted[l.idx], acceptedRaw{log: l, raw: now, size: h.Size})
 		w.hist[l.idx] = append(w.hist[l.idx], histEnt{step: end, begin: begin, h: h})
 		s.Logf("stored %s: (%s) -> (%s)", l.name, prev, h)
 	}
